@@ -287,7 +287,19 @@ func z3Body(sc z3Scenario) func() {
 			}
 			mcrt.Observe("attempt %d: %v", attempt, z3Err(err))
 			m := w.readManifest(ztName)
-			if err == nil {
+			malformed := false
+			for _, f := range sc.Faults {
+				if strings.HasPrefix(f, "manifest-") {
+					malformed = true // what the registry served in this scenario may itself be an altered manifest
+				}
+			}
+			if err == nil && malformed && !clean {
+				if m == nil {
+					mcrt.Fail("C03: success-not-stored: PullModel reported success but no manifest is stored")
+				} else if msg := w.checkLayers(m); msg != "" {
+					mcrt.Fail("C03: success-incomplete: PullModel reported success (attempt %d) but %s", attempt, msg)
+				}
+			} else if err == nil {
 				if m == nil || !ztSame(*m, served) {
 					mcrt.Fail("C03: success-not-stored: PullModel reported success but the stored manifest is not the one the registry served")
 				}
@@ -331,6 +343,7 @@ func z3Scenarios(thorough bool) []z3Scenario {
 		{Name: "replace-tag", Layers: []int{10, 3}, Prior: true, Faults: []string{"500", "truncate", "flip"}, Faulty: 1, Cap: 1},
 		{Name: "shared-layer", Layers: []int{10}, Second: true, Faults: []string{"500", "truncate"}, Faulty: 1, Cap: 1},
 		{Name: "empty-layer", Layers: []int{0, 3}, Faults: []string{"500"}, Faulty: 1},
+		{Name: "malformed-manifest", Cap: 1, Layers: []int{3, 5}, Config: 2, Faults: []string{"badjson", "manifest-empty-digest", "manifest-short-digest", "manifest-nohex-digest", "manifest-null-layer", "manifest-dup-layer"}, Faulty: 1},
 	}
 	if thorough {
 		l = append(l,
